@@ -19,13 +19,27 @@ struct Input {
     disk: Option<(String, String)>,
     files: Vec<(String, String)>,
     layout: bool,
+    defines: Vec<(String, String)>,
 }
 
 fn mem(src: String) -> Input {
-    Input { disk: None, files: vec![("main.rssl".to_string(), src)], layout: false }
+    Input { disk: None, files: vec![("main.rssl".to_string(), src)], layout: false, defines: Vec::new() }
 }
 
 fn source_of(id: &str) -> Option<Input> {
+    if let Some(rest) = id.strip_prefix("defs:") {
+        // defs:<NAME=VALUE,...>|<inner id>: the same input compiled with client defines
+        let (defs, inner) = rest.split_once('|')?;
+        let mut input = source_of(inner)?;
+        for d in defs.split(',').filter(|d| !d.is_empty()) {
+            let (n, v) = d.split_once('=').unwrap_or((d, "1"));
+            input.defines.push((n.to_string(), v.to_string()));
+        }
+        return Some(input);
+    }
+    if let Some(spec) = id.strip_prefix("resv:") {
+        return Some(mem(reserved_program(spec)?));
+    }
     if let Some(seed) = id.strip_prefix("gen:") {
         let seed: u64 = seed.parse().ok()?;
         let prog = gen_program(&mut Rng::new(seed), &stress_opts());
@@ -41,12 +55,12 @@ fn source_of(id: &str) -> Option<Input> {
         Some(mem(share_program(&mut Rng::new(seed))))
     } else if let Some(rest) = id.strip_prefix("disk:") {
         let (root, entry) = rest.split_once('|')?;
-        Some(Input { disk: Some((root.to_string(), entry.to_string())), files: Vec::new(), layout: false })
+        Some(Input { disk: Some((root.to_string(), entry.to_string())), files: Vec::new(), layout: false, defines: Vec::new() })
     } else if let Some(rest) = id.strip_prefix("diag:") {
         let (family, seed) = rest.split_once(':')?;
         let seed: u64 = seed.parse().ok()?;
         let p = diag::diag_program(family, &mut Rng::new(seed))?;
-        Some(Input { disk: None, files: p.files, layout: p.layout })
+        Some(Input { disk: None, files: p.files, layout: p.layout, defines: Vec::new() })
     } else if let Some(h) = id.strip_prefix("src:") {
         Some(mem(String::from_utf8(unhex(h)?).ok()?))
     } else {
@@ -236,7 +250,7 @@ fn compile_input(input: &Input, tgt: Tgt, mode: &Mode) -> CompileOutcome {
         None => compile(&Job {
             entry: "main.rssl",
             files: &input.files,
-            defines: &[],
+            defines: &input.defines.iter().map(|(n, v)| (n.as_str(), v.as_str())).collect::<Vec<_>>(),
             target: tgt,
             mode: mode.clone(),
             validate_layout: input.layout,
@@ -342,7 +356,8 @@ fn unescape(s: &str) -> String {
 
 /// the text of a generated rejected program, for the failure report
 fn program_text(id: &str) -> String {
-    if !is_diag_stream(id) {
+    let id = id.strip_prefix("defs:").and_then(|r| r.split_once('|')).map(|r| r.1).unwrap_or(id);
+    if !is_diag_stream(id) && !id.starts_with("resv:") {
         return String::new();
     }
     match source_of(id) {
@@ -355,6 +370,271 @@ fn program_text(id: &str) -> String {
         }
         None => String::new(),
     }
+}
+
+/// Roles in which a name can be declared in a `resv:` program
+const RESV_ROLES: [&str; 6] = ["local", "fn", "struct", "global", "param", "member"];
+
+/// `resv:<name>.<role>,<name>.<role>,...`: a program that declares the given identifiers (names that exactly one
+/// back end reserves, taken from the RESERVED_NAMES tables of the tree under check) as local variables, functions,
+/// structs, static globals, parameters and struct members.  What the exporter prints for them depends on the
+/// reserved list passed to `NameMap::build`; with `FLIP` defined one more local of each name is declared.
+fn reserved_program(spec: &str) -> Option<String> {
+    let mut decls = String::from("static int s_total = 0;\n");
+    let mut body = String::new();
+    for (k, item) in spec.split(',').enumerate() {
+        let (name, role) = item.rsplit_once('.')?;
+        if name.is_empty() || !name.chars().all(|c| c.is_ascii_alphanumeric() || c == '_') || name.chars().next()?.is_ascii_digit() {
+            return None;
+        }
+        match role {
+            "local" => body.push_str(&format!("    {{\n        int {n} = {k};\n        s_total = s_total + {n};\n    }}\n", n = name, k = k + 1)),
+            "fn" => {
+                decls.push_str(&format!("int {n}(int x)\n{{\n    s_total = s_total + x;\n    return x + {k};\n}}\n", n = name, k = k + 1));
+                body.push_str(&format!("    s_total = s_total + {}({});\n", name, k + 2));
+            }
+            "struct" => {
+                decls.push_str(&format!("struct {n}\n{{\n    int value;\n}};\nstatic {n} held_{k};\n", n = name, k = k));
+                body.push_str(&format!("    s_total = s_total + held_{}.value;\n", k));
+            }
+            "global" => {
+                decls.push_str(&format!("static int {} = {};\n", name, k + 3));
+                body.push_str(&format!("    s_total = s_total + {};\n", name));
+            }
+            "param" => {
+                decls.push_str(&format!("int take_{k}(int {n})\n{{\n    return {n} + {k};\n}}\n", n = name, k = k));
+                body.push_str(&format!("    s_total = s_total + take_{}({});\n", k, k + 1));
+            }
+            "member" => {
+                decls.push_str(&format!("struct Holder_{k}\n{{\n    int {n};\n}};\nstatic Holder_{k} holder_{k};\n", n = name, k = k));
+                body.push_str(&format!("    s_total = s_total + holder_{}.{};\n", k, name));
+            }
+            _ => return None,
+        }
+        body.push_str(&format!("#ifdef FLIP\n    {{\n        float {n}_f = {k}.0f;\n        s_total = s_total + (int){n}_f;\n    }}\n#endif\n", n = name, k = k + 1));
+    }
+    Some(format!(
+        "{}RWByteAddressBuffer g_out;\n[numthreads(1, 1, 1)]\nvoid entry()\n{{\n{}    g_out.Store(0, (uint)s_total);\n}}\nPipeline P\n{{\n    ComputeShader = entry;\n}}\n",
+        decls, body
+    ))
+}
+
+/// The string literals of `pub const RESERVED_NAMES: &[&str] = &[ ... ];` in a names.rs of the tree under check
+fn reserved_names_of(repo: &str, rel: &str) -> Vec<String> {
+    let Ok(text) = std::fs::read_to_string(format!("{}/{}", repo, rel)) else { return Vec::new() };
+    let Some(at) = text.find("RESERVED_NAMES") else { return Vec::new() };
+    let rest = &text[at..];
+    let Some(open) = rest.find("&[\n").or_else(|| rest.find("= &[")) else { return Vec::new() };
+    let Some(close) = rest[open..].find("];") else { return Vec::new() };
+    let mut out = Vec::new();
+    for line in rest[open..open + close].lines() {
+        let l = line.trim();
+        if let Some(q) = l.strip_prefix('"') {
+            if let Some(end) = q.find('"') {
+                out.push(q[..end].to_string());
+            }
+        }
+    }
+    out
+}
+
+/// (name, role) pairs usable in `resv:` programs: identifiers reserved by exactly one back end that the front end
+/// accepts in that role (probed by compiling a one-declaration program for DirectX and for Metal)
+fn one_sided_reserved(repo: &str, hist: &mut Hist) -> Vec<String> {
+    let h = reserved_names_of(repo, "hlsl/src/names.rs");
+    let m = reserved_names_of(repo, "msl/src/names.rs");
+    hist.0.insert("reserved-hlsl".into(), h.len() as u64);
+    hist.0.insert("reserved-msl".into(), m.len() as u64);
+    let mut one_sided: Vec<String> = Vec::new();
+    for n in m.iter().filter(|n| !h.contains(n)).chain(h.iter().filter(|n| !m.contains(n))) {
+        if n.chars().all(|c| c.is_ascii_alphanumeric() || c == '_') && !one_sided.contains(n) {
+            one_sided.push(n.clone());
+        }
+    }
+    hist.0.insert("reserved-by-one-back-end".into(), one_sided.len() as u64);
+    let mut usable = Vec::new();
+    for n in &one_sided {
+        for role in RESV_ROLES {
+            let id = format!("resv:{}.{}", n, role);
+            let ok = [Tgt::Dx, Tgt::Msl].iter().all(|t| matches!(compile_id(&id, *t, &Mode::All), Some(CompileOutcome::Ok(_))));
+            if ok {
+                usable.push(format!("{}.{}", n, role));
+            }
+        }
+    }
+    hist.0.insert("reserved-usable-name-role-pairs".into(), usable.len() as u64);
+    usable
+}
+
+/// one item of a history request: `<target> <mode> <id>`
+fn parse_item(item: &str) -> Option<(Tgt, Mode, String)> {
+    let mut it = item.splitn(3, ' ');
+    let t = Tgt::parse(it.next()?)?;
+    let mode = match it.next()? {
+        "all" => Mode::All,
+        "nopipeline" => Mode::NoPipeline,
+        _ => return None,
+    };
+    Some((t, mode, it.next()?.to_string()))
+}
+
+fn item_line(item: &str) -> Option<String> {
+    let (t, m, id) = parse_item(item)?;
+    Some(format!("C07.repeat\t{}\t{}\t{}", t.name(), m.show(), id))
+}
+
+/// run the given `C07.repeat` lines, in this order, in ONE fresh process; (digest, shown) per line
+fn in_fresh_process(lines: &[String], tag: &str) -> Option<Vec<(String, String)>> {
+    in_fresh_process_opt(lines, tag, false)
+}
+
+/// first line in which two emitted texts differ
+fn first_difference(a: &str, b: &str) -> String {
+    let (la, lb): (Vec<&str>, Vec<&str>) = (a.lines().collect(), b.lines().collect());
+    for i in 0..la.len().max(lb.len()) {
+        let (x, y) = (la.get(i).copied().unwrap_or("<end>"), lb.get(i).copied().unwrap_or("<end>"));
+        if x != y {
+            return format!("first difference in line {}: `{}` (after the history) vs `{}` (alone)", i + 1, clip(x.trim(), 200), clip(y.trim(), 200));
+        }
+    }
+    "texts equal".into()
+}
+
+fn in_fresh_process_opt(lines: &[String], tag: &str, full_text: bool) -> Option<Vec<(String, String)>> {
+    let tmp = std::env::temp_dir().join(format!("c07-hist-{}-{}.txt", std::process::id(), tag));
+    std::fs::write(&tmp, lines.join("\n") + "\n").ok()?;
+    let exe = std::env::current_exe().ok()?;
+    let mut cmd = std::process::Command::new(&exe);
+    cmd.args(["c07", "--requests", tmp.to_str()?, "child"]);
+    if full_text {
+        cmd.env("C07_CHILD_TEXT", "1");
+    }
+    let output = cmd.output();
+    let _ = std::fs::remove_file(&tmp);
+    let output = output.ok()?;
+    let text = String::from_utf8_lossy(&output.stdout);
+    let v: Vec<(String, String)> = text
+        .lines()
+        .filter_map(|l| l.strip_prefix("DIGEST\t"))
+        .map(|l| l.split_once('\t').unwrap_or((l, "")))
+        .map(|(d, s)| (d.to_string(), s.to_string()))
+        .collect();
+    if v.len() == lines.len() { Some(v) } else { None }
+}
+
+/// `C07.history \t <item> \t <item> ...`: history independence.  Every item is compiled (a) alone in a fresh
+/// process, (b) in one fresh process after the items before it, in the given order, in reverse order, rotated by
+/// one and in a seeded shuffle, and (c) in THIS process, which has compiled everything the run compiled so far.
+/// Oracle: every result of (b) and (c) equals the result of (a) for the same item.
+fn run_history(line: &str, out: &mut Out, hist: &mut Hist) {
+    let fields: Vec<&str> = line.split('\t').collect();
+    let items: Vec<&str> = fields[1..].to_vec();
+    let lines: Option<Vec<String>> = items.iter().map(|i| item_line(i)).collect();
+    let (Some(lines), true) = (lines, items.len() >= 2) else {
+        out.case(line, "bad", "SKIP:bad history request");
+        return;
+    };
+    if items.iter().any(|i| parse_item(i).and_then(|(_, _, id)| source_of(&id)).is_none()) {
+        out.case(line, "bad", "SKIP:bad item in history request");
+        return;
+    }
+    let n = items.len();
+    // (a) alone
+    let mut alone: Vec<(String, String)> = Vec::new();
+    for (i, l) in lines.iter().enumerate() {
+        match in_fresh_process(std::slice::from_ref(l), &format!("a{}", i)) {
+            Some(mut v) => alone.push(v.remove(0)),
+            None => {
+                out.case(line, "bad", "FAIL:could not run a child process");
+                return;
+            }
+        }
+    }
+    let mut fail: Option<String> = None;
+    let describe = |k: usize, before: &[usize], got_d: &str, got_s: &str, how: &str| -> String {
+        let prefix: Vec<String> = before.iter().map(|j| format!("<{}>", items[*j])).collect();
+        let id = parse_item(items[k]).map(|r| r.2).unwrap_or_default();
+        format!(
+            "history dependence: <{}> compiled {} after [{}] gives {} <<{}>> but alone in a fresh process {} <<{}>>{}",
+            items[k],
+            how,
+            prefix.join(", "),
+            got_d,
+            clip(&unescape(got_s), 600),
+            alone[k].0,
+            clip(&unescape(&alone[k].1), 600),
+            program_text(&id)
+        )
+    };
+    // (b) orders in fresh processes
+    let mut orders: Vec<(String, Vec<usize>)> = vec![
+        ("in request order".into(), (0..n).collect()),
+        ("in reverse order".into(), (0..n).rev().collect()),
+        ("rotated by one".into(), (0..n).map(|i| (i + 1) % n).collect()),
+    ];
+    let mut rng = Rng::new(fnv64(line.as_bytes()));
+    let mut sh: Vec<usize> = (0..n).collect();
+    for i in (1..n).rev() {
+        let j = rng.below(i as u64 + 1) as usize;
+        sh.swap(i, j);
+    }
+    orders.push(("shuffled".into(), sh));
+    let mut seen: Vec<Vec<usize>> = Vec::new();
+    for (name, order) in &orders {
+        if seen.contains(order) {
+            continue;
+        }
+        seen.push(order.clone());
+        let seq: Vec<String> = order.iter().map(|i| lines[*i].clone()).collect();
+        let Some(got) = in_fresh_process(&seq, "s") else {
+            fail.get_or_insert("could not run a child process".into());
+            continue;
+        };
+        for (pos, k) in order.iter().enumerate() {
+            if got[pos].0 != alone[*k].0 && fail.is_none() {
+                let mut f = describe(*k, &order[..pos], &got[pos].0, &got[pos].1, &format!("in one fresh process ({})", name));
+                if got[pos].0.starts_with("ok") && alone[*k].0.starts_with("ok") {
+                    // both accepted: run the two processes again for the emitted text and name the first differing line
+                    let again = in_fresh_process_opt(&seq[..pos + 1], "t", true);
+                    let single = in_fresh_process_opt(std::slice::from_ref(&lines[*k]), "u", true);
+                    if let (Some(a), Some(b)) = (again, single) {
+                        f = format!("{}; {}", f, first_difference(&unescape(&a[pos].1), &unescape(&b[0].1)));
+                    }
+                }
+                fail = Some(f);
+            }
+        }
+    }
+    // (c) this process
+    for k in 0..n {
+        let (t, m, id) = parse_item(items[k]).unwrap();
+        if let Some(o) = compile_id(&id, t, &m) {
+            if o.digest() != alone[k].0 && fail.is_none() {
+                let before: Vec<usize> = (0..k).collect();
+                fail = Some(describe(k, &before, &o.digest(), &one_line(&show(&o)), "in the long-running harness process (everything this run compiled so far, then)"));
+            }
+        }
+    }
+    let mut targets: Vec<&str> = items.iter().filter_map(|i| i.split(' ').next()).collect();
+    targets.sort();
+    targets.dedup();
+    let back_ends = (targets.contains(&"msl") as usize) + (targets.iter().any(|t| *t != "msl") as usize);
+    hist.add(&format!("history-items={}", n));
+    hist.add(&format!("history-back-ends={}", back_ends));
+    for (d, _) in &alone {
+        hist.add(if d.starts_with("ok") { "history-item=ok" } else if d.starts_with("err") { "history-item=err" } else { "history-item=panic" });
+    }
+    for i in &items {
+        let id = i.splitn(3, ' ').nth(2).unwrap_or("");
+        let id = id.strip_prefix("defs:").and_then(|r| r.split_once('|')).map(|r| { hist.add("history-source=with-defines"); r.1 }).unwrap_or(id);
+        hist.add(&format!("history-source={}", id.split(':').next().unwrap_or("?")));
+    }
+    let obs = format!("n={};backends={};{}", n, back_ends, alone.iter().map(|(d, _)| d.clone()).collect::<Vec<_>>().join(";"));
+    let oracle = match fail {
+        None => "ok".to_string(),
+        Some(f) => format!("FAIL:{}", f),
+    };
+    out.case(line, &clip(&obs, 400), &oracle);
 }
 
 fn parse_req(line: &str) -> Option<(Tgt, Mode, String)> {
@@ -372,9 +652,14 @@ fn parse_req(line: &str) -> Option<(Tgt, Mode, String)> {
 
 /// child mode: print one digest per request and nothing else
 fn child(lines: &[String]) {
+    let full = std::env::var("C07_CHILD_TEXT").is_ok();
     for line in lines {
         if let Some((t, m, id)) = parse_req(line) {
             match compile_id(&id, t, &m) {
+                Some(CompileOutcome::Ok(ps)) if full => {
+                    let text: Vec<String> = ps.iter().map(|p| format!("{}\nstages: {:?}\nmeta: {}\nstate: {}", p.text(), p.stages, p.metadata, p.state)).collect();
+                    println!("DIGEST\t{}\t{}", CompileOutcome::Ok(ps).digest(), one_line(&text.join("\n-- next pipeline --\n")))
+                }
                 Some(o) => println!("DIGEST\t{}\t{}", o.digest(), one_line(&show(&o))),
                 None => println!("DIGEST\tbad\tbad"),
             }
@@ -382,7 +667,17 @@ fn child(lines: &[String]) {
     }
 }
 
-fn run_requests(lines: &[String], out: &mut Out, hist: &mut Hist) {
+fn run_requests(all_lines: &[String], out: &mut Out, hist: &mut Hist) {
+    let repeat_lines: Vec<String> = all_lines.iter().filter(|l| !l.starts_with("C07.history\t")).cloned().collect();
+    if !repeat_lines.is_empty() {
+        run_repeat_requests(&repeat_lines, out, hist);
+    }
+    for l in all_lines.iter().filter(|l| l.starts_with("C07.history\t")) {
+        run_history(l, out, hist);
+    }
+}
+
+fn run_repeat_requests(lines: &[String], out: &mut Out, hist: &mut Hist) {
     let dump = std::env::var("C07_DUMP").is_ok();
     // in-process repeats
     let mut first: Vec<String> = Vec::new();
@@ -439,6 +734,8 @@ fn run_requests(lines: &[String], out: &mut Out, hist: &mut Hist) {
             "source=diagnostics-generator"
         } else if id.starts_with("src:") {
             "source=repo-rejected-tests"
+        } else if id.starts_with("resv:") || id.starts_with("defs:") {
+            "source=one-sided-reserved-names"
         } else {
             "source=repo-corpus"
         });
@@ -598,9 +895,62 @@ pub fn run(args: &Args, out: &mut Out) {
             lines.push(format!("C07.repeat\t{}\t{}\tdisk:{}|{}", t.name(), mode, root, entry));
         }
     }
+    // history independence: sequences of requests in one process against each request alone in a fresh process.
+    // Every sequence compiles a program declaring identifiers reserved by exactly one back end for an HLSL target
+    // and for Metal, surrounded by other targets, the same input with other defines, other inputs and rejected inputs.
+    let usable = one_sided_reserved(&repo, &mut hist);
+    let pool: Vec<String> = lines
+        .iter()
+        .filter(|l| args.thorough() || !l.contains("\tdisk:"))
+        .filter_map(|l| {
+            let f: Vec<&str> = l.split('\t').collect();
+            if f.len() == 4 { Some(format!("{} {} {}", f[1], f[2], f[3])) } else { None }
+        })
+        .collect();
+    let nh = args.n.map(|n| (n / 4).max(2)).unwrap_or(if args.thorough() { 400 } else { 60 });
+    let mut history_lines = Vec::new();
+    for h in 0..nh {
+        let pick_resv = |rng: &mut Rng| -> String {
+            if usable.is_empty() {
+                return format!("clash:{}", rng.next() >> 16);
+            }
+            let k = rng.range(1, 4) as usize;
+            let mut chosen: Vec<String> = Vec::new();
+            for _ in 0..k {
+                let c = rng.pick(&usable).clone();
+                if !chosen.contains(&c) {
+                    chosen.push(c);
+                }
+            }
+            format!("resv:{}", chosen.join(","))
+        };
+        let x = pick_resv(&mut rng);
+        let hl = *rng.pick(&[Tgt::Dx, Tgt::Vk, Tgt::VkBa]);
+        let mut items: Vec<String> = vec![format!("{} all {}", hl.name(), x), format!("msl all {}", x)];
+        if h % 3 != 0 {
+            // more history: other targets / modes / defines of the same input, other inputs, rejected inputs
+            let extra = rng.range(1, 4);
+            for _ in 0..extra {
+                match rng.below(5) {
+                    0 => items.push(format!("{} all defs:FLIP=1|{}", rng.pick(&ALL_TARGETS).name(), x)),
+                    1 => items.push(format!("{} nopipeline {}", rng.pick(&ALL_TARGETS).name(), x)),
+                    2 => items.push(format!("{} all {}", rng.pick(&ALL_TARGETS).name(), pick_resv(&mut rng))),
+                    _ => {
+                        if !pool.is_empty() {
+                            items.push(rng.pick(&pool).clone());
+                        }
+                    }
+                }
+            }
+        }
+        items.dedup();
+        shuffle_lines(&mut rng, &mut items);
+        history_lines.push(format!("C07.history\t{}", items.join("\t")));
+    }
+    lines.extend(history_lines);
     run_requests(&lines, out, &mut hist);
     out.stat(&format!(
-        "{{\"requests\":{},\"repeats_in_process\":\"5 (accepted-program streams) / 8 (diagnostics streams)\",\"fresh_processes\":3,\"diag_families\":{},\"hist\":{}}}",
+        "{{\"requests\":{},\"repeats_in_process\":\"5 (accepted-program streams) / 8 (diagnostics streams)\",\"fresh_processes\":3,\"history\":\"each item alone in a fresh process vs 4 orders of the sequence in fresh processes vs the long-running harness process\",\"diag_families\":{},\"hist\":{}}}",
         lines.len(),
         diag::FAMILIES.len(),
         hist.json()
